@@ -7,8 +7,8 @@ import verif
 META = dict(
     engine="E-CHAIN",
     technique="Lean 4 proof over an executable model of ValidateTransaction (signer list incl. output-address and application-transfer signers, per-signer loop, halt-height exemption, multisig depth) and of runTx/DeliverTx with arbitrary message handlers + transition checking against the real PocketCoreApp, one DeliverTx at a time",
-    level_text="Kernel-checked theorems for all transactions, states, signature schemes and handlers: a DeliverTx that changes state at a height other than 30334 carries a signature that verifies over this chain's sign document under a key whose address is in the documented allowed set (state_change_requires_auth); at height 30334 this is false (halt_height_any_signer: counterexample theorem, reproduced on the real code by running the real ante handler at that height every run and a real 30334-block chain in the thorough tier); a signature made for another chain id changes nothing unless one signature verifies for two documents (wrong_chain_rejected); empty signature, omitted key, key outside the allowed set change nothing (missing_or_other_key_noop). Every run drives the real app over the message × signer-relation × signature-defect matrix and evaluates 'state changed ⇒ an allowed key verifies' on the implementation's own dumps.",
-    level_note="Trusted: Lean kernel; axioms propext, Classical.choice, Quot.sound; the Go harness and the driver's parser. Not provable: unforgeability (the theorem says a verifying allowed key exists, not that its owner signed). StdSignBytes is a parameter assumed injective in the chain id; the harness rebuilds the sign document independently and compares it with StdSignBytes on every tx. Message-level signer checks inside handlers (ValidateValidatorMsgSigner, ValidateEditStake) are exercised, not modelled here.",
+    level_text="Kernel-checked theorems for all transactions, states, signature schemes and handlers: a DeliverTx that changes state at a height other than 30334 carries a signature that verifies over this chain's sign document under a key whose address is in the documented allowed set (state_change_requires_auth); at height 30334 this is false (halt_height_any_signer: counterexample theorem, reproduced on the real code by running the real ante handler at that height every run and a real 30334-block chain in the thorough tier); a signature made for another chain id changes nothing unless one signature verifies for two documents (wrong_chain_rejected); empty signature, omitted key, key outside the allowed set change nothing (missing_or_other_key_noop); for the messages that name their own signer (node unstake/unjail) and for node stake the handler-level checks pin the key to operator or output address (unstake_unjail_signer_rule, stake_signer_rule). Every run drives the real app over the message × signer-relation × signature-defect matrix and evaluates 'state changed ⇒ an allowed key verifies' on the implementation's own dumps.",
+    level_note="Trusted: Lean kernel; axioms propext, Classical.choice, Quot.sound; the Go harness and the driver's parser. Not provable: unforgeability (the theorem says a verifying allowed key exists, not that its owner signed). StdSignBytes is a parameter assumed injective in the chain id; the harness rebuilds the sign document independently and compares it with StdSignBytes on every tx. ValidateEditStake's non-signer rules and the gov ACL are other properties' subject.",
 )
 
 DRIVER = "Driver/C14.lean"
